@@ -3,11 +3,11 @@
    The models mirror lib/allocators after the repairs 484ce8f (arena/stack overflow test, arena
    alloc(0)), 961d315 (pool deallocall), 942c78c (heap size overflow), b8d094a (heap realloc-shrink
    coalescing), 942989e (span count overflow), 532034f (aligned request overflow), 9ef0717 (heap
-   deallocall clears the used marks), d9328b9 (heap get_ptr_node refuses the end node): every
-   statement is the full-strength one, over ALL histories with sizes anywhere in 0 .. 2^64-1.  The
+   deallocall clears the used marks), d9328b9 (heap get_ptr_node refuses the end node), 23ac203 (heap
+   region geometry: room for two nodes, aligned end node): every statement is the full-strength one,
+   over ALL histories with sizes anywhere in 0 .. 2^64-1; no [_refuted]/[_partial] pair is left.  The
    only hypotheses are the [*cfg_ok] facts about the buffer (a real object that does not wrap the
-   address space; for the heap also room for two nodes - the code's own, weaker check is refuted in
-   C11_heap_mem_safe_code_check_refuted, open finding). *)
+   address space); for the heap, hcfg_ok's size clause is exactly the check of add_memory_region. *)
 From Coq Require Import ZArith List Bool Permutation.
 From Base Require Import LuaInt.
 From C11 Require Import Gen Model Heap HeapA Spec SpecHeap ProofsArena ProofsStack ProofsPool ProofsHeap ProofsHeapNaf ProofsHeapBytes RefineHeap RefineTop Iface ProofsIface Aligned ProofsAligned.
@@ -171,24 +171,26 @@ Theorem C11_heap_mem_invalid_realloc_reported : forall c ops s live p n old,
 Proof. exact heap_mem_invalid_realloc_reported_proof. Qed.
 Print Assumptions C11_heap_mem_invalid_realloc_reported.
 
-(* hcfg_ok demands room for two nodes (2*NODE + ALLOC_ALIGN <= size).  The code's own check in
-   add_memory_region demands room for one: under that weaker hypothesis the statement of
-   C11_heap_mem_safe is false (open finding) - HeapAllocator(48):alloc(100) returns a 100-byte block *)
-Theorem C11_heap_mem_safe_code_check_refuted : ~ heap_mem_safe_code_check_full.
-Proof. exact heap_mem_safe_code_check_refuted_proof. Qed.
-Print Assumptions C11_heap_mem_safe_code_check_refuted.
-
 (* the memory of Heap.v maps addresses to 64-bit words; it is an exact picture of a byte-addressed
-   memory as long as no two words that are accessed overlap.  When the end node is 8-aligned every
-   word the model ever writes is 8-aligned: every other address still holds the initial 0.
-   (Without the hypothesis - HeapAllocator(SIZE) with SIZE not a multiple of 8 - the real end node is
-   accessed misaligned, which is an open finding of its own.) *)
+   memory as long as no two words that are accessed overlap.  Every node, the end node included
+   (repair 23ac203), is 16-aligned: every word the model ever writes is 8-aligned, every other
+   address still holds the initial 0.  (The reads are 8-aligned as well: header words of nodes, and
+   get_ptr_node refuses client pointers that are not 16-aligned before it reads anything.) *)
 Theorem C11_heap_mem_writes_aligned : forall c ops s live,
-  hcfg_ok c -> Forall hop_usize ops -> heap_end c mod 8 = 0 ->
+  hcfg_ok c -> Forall hop_usize ops ->
   crun c (heap_init_state, []) ops = Some (s, live) ->
   forall w, w mod 8 <> 0 -> mget (h_mem s) w = 0.
 Proof. exact heap_mem_writes_aligned_proof. Qed.
 Print Assumptions C11_heap_mem_writes_aligned.
+
+(* the geometry of the region: the heap proper starts within 15 bytes of the buffer, start and end
+   node are 16-aligned, the end node ends within 15 bytes of the end of the buffer *)
+Theorem C11_heap_geometry : forall c, hcfg_ok c ->
+  h_base c <= heap_start c < h_base c + 16 /\ heap_start c mod 16 = 0 /\
+  heap_end c mod 16 = 0 /\ heap_start c + 32 <= heap_end c /\
+  h_base c + h_size c - 15 <= heap_end c + 32 <= h_base c + h_size c.
+Proof. exact heap_geometry. Qed.
+Print Assumptions C11_heap_geometry.
 
 (* the allocator's own writes never land in a live payload (memory level): after any history, every
    operation - alloc, dealloc, realloc in place or moving, deallocall, lazy initialisation included -
